@@ -59,6 +59,7 @@ static token *mk(int kind, int idx) { TOK.push_back(token{ kind, idx }); return 
 static const char *pname(int p) { return p == QB_LOOP_HIGH ? "HIGH" : p == QB_LOOP_MED ? "MED" : "LOW"; }
 
 static void do_actions(int n);
+static void add_fd(int reuse_number);
 static void job_cb(void *data);
 static void timer_cb(void *data);
 static int32_t fd_cb(int32_t fd, int32_t revents, void *data);
@@ -107,7 +108,20 @@ static int32_t fd_cb(int32_t fd, int32_t revents, void *data)
 	do_actions(vr_u8(&V) % 3);
 	int rc = 0;
 	/* a negative return removes the registration; it is also what a handler returns after it has already deleted itself (and maybe registered a successor) */
-	if (f.ret_neg && !winding_down && vr_u8(&V) % 3 == 0) { rc = -1; VCLASS(R, K_FDRET); VLOG(R, "      fd #%d returns -1 (%s)\n", t->idx, f.reg ? "removes itself" : "it had deleted itself already"); f.reg = false; }
+	if (f.ret_neg && !winding_down && vr_u8(&V) % 3 == 0) {
+		rc = -1; VCLASS(R, K_FDRET); VLOG(R, "      fd #%d returns -1 (%s)\n", t->idx, f.reg ? "removes itself" : "it had deleted itself already"); f.reg = false;
+		/* the usual end-of-file handler: close the descriptor, then return -1; a reconnecting one registers the successor (same number) before it returns */
+		unsigned how = vr_u8(&V) % 4;
+		if (how <= 1 && f.rfd >= 0) {
+			int num = f.rfd, idx = t->idx;
+			bool inuse = false; for (size_t q = 0; q < FDS.size(); q++) if ((int)q != idx && FDS[q].rfd == num) inuse = true;
+			if (!inuse) {
+				close(f.rfd); close(f.wfd); FDS[idx].rfd = FDS[idx].wfd = -1; FDS[idx].bytes = 0;
+				VLOG(R, "      (it closed descriptor %d before returning%s)\n", num, how == 0 ? " and registers a successor with the same number" : "");
+				if (how == 0 && budget_left > 0) { budget_left--; add_fd(num); VCLASS(R, K_FDREUSE); nontriv = true; }
+			}
+		}
+	}
 	leave();
 	return rc;
 }
